@@ -212,6 +212,19 @@ def _struct_case(arg):
             res.violation(f"{tag}:rotation-has-no-effect", f"rotate={rotate} gives the unrotated grid", case)
     if not (np.array_equal(rg.points, snap[0]) and np.array_equal(rg.weights, snap[1]) and np.array_equal(centre, snap[2])):
         res.violation(f"{tag}:argument-modified", "radial grid or centre was modified", case)
+    # the array handed out by .points is the caller's: editing it in place must not move the grid (the points are
+    # centre + stored offsets; seeded change C05-K returned the stored array itself for a centre at the origin)
+    res.count()
+    keep_p = np.array(g.points)
+    handed = g.points
+    try:
+        handed += 1.5
+        handed *= -2.0
+    except ValueError:
+        pass          # a write-protected array is a legitimate way to keep the grid safe
+    if not np.array_equal(np.asarray(g.points), keep_p):
+        res.violation(f"{tag}:points-array-aliases-the-grid", "editing the array returned by .points in place changed the grid's points", case)
+        return res.as_dict()
     # per-shell grids
     for i in range(rg.size):
         for r_sq in (True, False):
